@@ -99,6 +99,8 @@ func init() {
 		Assumptions: []string{
 			"markers are strings that occur in no schema; property names and numbers are not markers (the property speaks of string values)",
 			"validator/regexp-compiler texts inside reasons are matched as wildcards (their wording is the validator's, checked for markers only)",
+			"ConvertErrors: Title and Source are searched; the Detail it adds to an enum error quotes the value by design (not a message assembled from reasons)",
+			"typed Go values outside the JSON-shaped set (named string, map[string]string, struct, …) have no model: the marker search is the whole check for them",
 		},
 	})
 }
